@@ -191,9 +191,20 @@ def minimise(mod, plan, res, budget=300):
     vclass = res['vclass']
     spent = 0
     improved = True
+    def candidates(pl):
+        # a failing shrink step only ends the minimisation, never the check
+        it = iter(mod.shrink(pl))
+        while True:
+            try:
+                yield next(it)
+            except StopIteration:
+                return
+            except Exception:
+                return
+
     while improved and spent < budget:
         improved = False
-        for cand in mod.shrink(plan):
+        for cand in candidates(plan):
             if spent >= budget:
                 break
             spent += 1
